@@ -1239,19 +1239,39 @@ def _stable_order(xs):
     return idx
 
 
-def argsort(a, axis=-1):
+def _along(a, axis, fn, dt=None):
+    """apply fn (list -> list) to every 1-d lane of a along axis."""
     a = asarray(a)
-    if a.ndim != 1:
-        raise NotModelled('argsort of %d-d array' % a.ndim)
-    return array(_stable_order(a.flat_list()), dtype=int)
+    if a.ndim == 0:
+        raise ValueError('axis out of bounds for a 0-d array')
+    axis = axis % a.ndim
+    other = [range(d) for i, d in enumerate(a.shape) if i != axis]
+    lanes = {}
+    n_out = None
+    for combo in itertools.product(*other):
+        key = list(combo)
+        key.insert(axis, slice(None))
+        out = fn(a[tuple(key)].flat_list())
+        n_out = len(out)
+        lanes[combo] = out
+    if n_out is None:
+        n_out = a.shape[axis]
+    shape = list(a.shape)
+    shape[axis] = n_out
+    flat = []
+    for combo in itertools.product(*[range(d) for d in shape]):
+        c = list(combo)
+        k = c.pop(axis)
+        flat.append(lanes[tuple(c)][k])
+    return ndarray.from_flat(flat, tuple(shape), dt or a.dt)
+
+
+def argsort(a, axis=-1):
+    return _along(a, axis, _stable_order, 'int')
 
 
 def sort(a, axis=-1):
-    a = asarray(a)
-    if a.ndim != 1:
-        raise NotModelled('sort of %d-d array' % a.ndim)
-    xs = a.flat_list()
-    return ndarray.from_flat([xs[i] for i in _stable_order(xs)], a.shape, a.dt)
+    return _along(a, axis, lambda xs: [xs[i] for i in _stable_order(xs)])
 
 
 def mean(a, axis=None):
@@ -1289,13 +1309,11 @@ def median(a):
     return (xs[n // 2 - 1] + xs[n // 2]) / 2
 
 
-def diff(a):
-    a = asarray(a)
-    if a.ndim != 1:
-        raise NotModelled('diff of %d-d array' % a.ndim)
-    xs = a.flat_list()
-    return ndarray.from_flat([xs[i + 1] - xs[i] for i in range(len(xs) - 1)],
-                             (builtins.max(len(xs) - 1, 0),), a.dt)
+def diff(a, n=1, axis=-1):
+    if n != 1:
+        raise NotModelled('diff n != 1')
+    return _along(a, axis, lambda xs: [xs[i + 1] - xs[i]
+                                       for i in range(len(xs) - 1)])
 
 
 def bincount(x, minlength=0):
